@@ -139,9 +139,11 @@ let show_bool b = if b then "=true" else "=false"
 
 
 let show_opt (f : 'a -> string) (o : 'a option) : string = match o with Some x -> f x | None -> "=none"
-(* buffer-writing ops print the whole buffer; on error the buffer is what the caller passed in *)
-let show_buf (prefix : n list) (r : n list res) : string =
-  match r with Ok b -> "ok " ^ hex b | Err e -> "err " ^ show_err e ^ " " ^ hex prefix | Panic -> "panic"
+(* buffer-writing ops print the whole buffer, on success and on error: the state the model computed (`stm unit`
+   functions of BufSt.v: the buffer as the call leaves it, and the outcome).  There is no printer that substitutes the
+   caller's prefix for the buffer of a failed editor call any more. *)
+let show_buf_st ((b, r) : n list * unit res) : string =
+  match r with Ok _ -> "ok " ^ hex b | Err e -> "err " ^ show_err e ^ " " ^ hex b | Panic -> "panic"
 let show_offs (o : n list) : string = String.concat "," (List.map (fun x -> ZA.to_string (zt_of_n x)) o)
 let show_sel (prefix : n list) (r : (n list * n list) res) : string =
   match r with
